@@ -405,10 +405,82 @@ func runC11ResponseRace(closeMode string, r *rep.Report) (key, msg string, held 
 	return
 }
 
+// runC11OverlapWhileAnswering: the transport has taken the pending poll to answer it and is held
+// there (hook polling.write.requestTaken) when a second poll of the same session arrives: the poll
+// is still outstanding, so the second one is an overlap (400, session closed with a transport error).
+func runC11OverlapWhileAnswering(r *rep.Report) (key, msg string, held bool) {
+	rig.Bubble(r.T(), func() {
+		so := &config.ServerOptions{}
+		so.SetPingInterval(20 * time.Second)
+		w := rig.NewWorld(rig.Options{Server: so})
+		defer w.Finish()
+		cl, err := w.Connect(rig.ClientCfg{Rev: 4, Transport: "polling"})
+		rig.Wait()
+		sock := w.Socket(0)
+		if err != nil || sock == nil {
+			key, msg = "c11-handshake-failed", fmt.Sprint(err)
+			return
+		}
+		x1 := cl.PollStart()
+		time.Sleep(time.Millisecond)
+		rig.Wait()
+		w.Gate.Arm("polling.write.requestTaken", 1)
+		sock.Send(types.NewStringBufferString("m"), nil, nil)
+		rig.Settle()
+		if len(w.Gate.Parked()) != 1 {
+			r.Inconclusive("overlap-while-answering: the polling writer was not held with the request")
+			w.Gate.ReleaseAll()
+			return
+		}
+		held = true
+		// the writer owns the transport's mutex: settle on real time
+		x2 := cl.PollStart()
+		rig.Settle()
+		rig.Settle()
+		w.Gate.ReleaseAll()
+		rig.Settle()
+		time.Sleep(100 * time.Millisecond)
+		rig.Wait()
+		res2, ok2 := x2.WaitFor(time.Second)
+		if !ok2 || res2.Status != 400 {
+			key, msg = "c11-overlapping-poll-not-refused", fmt.Sprintf("a second poll arrived while the first one was being answered (still outstanding): answered=%v status %d; session %s", ok2, res2.Status, sock.ReadyState())
+			x2.Abort()
+			return
+		}
+		ev := w.Tap.Of(sock.Id(), "close")
+		if len(ev) != 1 || ev[0].Str != "transport error" {
+			key, msg = "c11-overlap-did-not-close-session", fmt.Sprintf("overlapping poll refused with 400 but close events are %v", ev)
+			return
+		}
+		if _, ok1 := x1.WaitFor(time.Second); !ok1 {
+			key, msg = "c11-no-response", "the first poll was never answered"
+			x1.Abort()
+			return
+		}
+		time.Sleep(time.Second)
+		rig.Wait()
+		key, msg = judgeResponses(w, nil)
+		cl.Stop()
+	})
+	return
+}
+
 func TestC11(t *testing.T) {
 	r := rep.New(t, "C11")
 	defer r.Flush()
 	r.Rule("PRNG polling/JSONP histories over real net/http: overlapping polls, overlapping data requests (first one with a slow body), a pending poll while the session closes by each cause (including the client's own close packet in a data request), polls and data requests aborted by the client mid-flight, multi-packet data requests with a listener that takes time (acknowledgement ordering by tap sequence numbers), a revision-4 data request with a binary content type, mixed conformant histories with server sends and heartbeats, and a data request whose listener is running when the session is closed from another goroutine while the first header write is held (harness-side gate in the ResponseWriter); oracle: counting ResponseWriter (exactly one WriteHeader per non-aborted exchange), handler return log, 400 + 'transport error' on overlap, bubble goroutine-leftover scan 40 s after everything closed; distinct = scenario signature")
+	if r.Lane == 2%r.Lanes {
+		for k := 0; k < r.N(8, 200); k++ {
+			key, msg, held := runC11OverlapWhileAnswering(r)
+			r.Case("overlap-while-answering", held)
+			if held {
+				r.Obs("gate:polling_writer_held_with_the_pending_request", 1)
+			}
+			if key != "" {
+				r.Violation(key, msg, map[string]string{"lane": "second poll while the first is being answered (hook polling.write.requestTaken)"})
+			}
+		}
+	}
 	if r.Lane == 1%r.Lanes {
 		for k := 0; k < r.N(8, 200); k++ {
 			for _, mode := range []string{"close-true", "close-false", "server-close"} {
